@@ -1,2 +1,5 @@
 pub mod c03;
+pub mod c04;
+pub mod c05;
 pub mod c08;
+pub mod stream;
